@@ -249,6 +249,15 @@ def step_length(case, s):
     return dt
 
 
+def step0_fluxes(case, s):
+    """Standalone flux calculation at the initial state with the permeances the model is expected to use at step 0."""
+    p1, p2 = step0_permeances(case, s)
+    return call(s.pv.calculate_partial_fluxes, feed_temperature=case["T"], composition=build.composition(s.w0, "weight"),
+                precision=case["precision"], permeate_temperature=case["perm"]["T"], permeate_pressure=case["perm"]["p"],
+                first_component_permeance=build.permeance(p1), second_component_permeance=build.permeance(p2),
+                calculation_type=case["model"])
+
+
 def _step_length(case, s):
     """delta_hours such that step 0 removes about `removal` of the feed (from a standalone flux calculation)."""
     p1, p2 = step0_permeances(case, s)
